@@ -59,7 +59,7 @@ def regenerate(ctx):
 
 
 META = {
-    'level_text': 'Lean 4 theorems, for any field and any number of elements, about executable models of mobility_matrix / x_to_u_frac, of the bordered-Hessian assembly hessian(), of the row selection in totalddx/dMudX/partialdMudX over an ARBITRARY inverse matrix, of chemical_diffusivity/interdiffusivity, and about the traced tracer_diffusivity: volume-fixed frame (every substitutional column of the mobility matrix sums to zero, hence the substitutional fluxes J = -M.grad(mu) sum to zero for any gradient); tracer = 8.314*T*mobility element-wise and positive with the mobility; dMudX = -B^T K B, symmetric whenever K is, K symmetric whenever the assembled Hessian is, the assembled Hessian symmetric whenever pycalphad\'s site-fraction block is; Gibbs-Duhem for partialdMudX derived from the assembled bordered system at a stationary composition set; Darken: the binary interdiffusivity pipeline equals (x_R D*_k + x_k D*_R) x_k x_R G\'\'/(RT) with G\'\' what dMudX returns, and is positive when mobilities, G\'\' and T are. The models are tied to kawin/thermo on every run (inverse Hessian, mobilities, mole fractions captured from real pycalphad composition sets and from duck-typed random phases; outputs compared to rtol 1e-9), and every clause is also evaluated directly on the implementation.',
+    'level_text': 'PARTLY DECIDED BY PROOF (the algebraic clauses; the first sentence of the property - agreement with finite differences, positive definiteness, eigenvalue signs - is a fact about the CALPHAD functions/pycalphad and is only monitored by the oracle). Lean 4 theorems, for any field and any number of elements, about executable models of mobility_matrix / x_to_u_frac, of the bordered-Hessian assembly hessian(), of the row selection in totalddx/dMudX/partialdMudX over an ARBITRARY inverse matrix, of chemical_diffusivity/interdiffusivity, and about the traced tracer_diffusivity: volume-fixed frame (every substitutional column of the mobility matrix sums to zero, hence the substitutional fluxes J = -M.grad(mu) sum to zero for any gradient); tracer = 8.314*T*mobility element-wise and positive with the mobility; dMudX = -B^T K B, symmetric whenever K is, K symmetric whenever the assembled Hessian is, the assembled Hessian symmetric whenever pycalphad\'s site-fraction block is; Gibbs-Duhem for partialdMudX derived from the assembled bordered system at a stationary composition set; Darken: the binary interdiffusivity pipeline equals (x_R D*_k + x_k D*_R) x_k x_R G\'\'/(RT) with G\'\' what dMudX returns, and is positive when mobilities, G\'\' and T are. The models are tied to kawin/thermo on every run (inverse Hessian, mobilities, mole fractions captured from real pycalphad composition sets and from duck-typed random phases; outputs compared to rtol 1e-9), and every clause is also evaluated directly on the implementation.',
     'level_note': 'MONITORED ONLY (oracle on grids over the matrix-phase region of the shipped databases; these are facts about the CALPHAD functions and pycalphad\'s derivatives/solver, not about kawin\'s logic, and no theorem covers them): dMudX equals the central finite difference of the equilibrium chemical potentials through getLocalEq; dMudX positive definite; interdiffusivity eigenvalues real and positive (positive scalar for binaries); tracer diffusivities/mobilities positive; stationarity of the converged composition set (hypothesis of the Gibbs-Duhem/Darken theorems, checked numerically as Gibbs-Duhem residual). np.linalg.inv is not modelled (its result is an input; symmetry of the inverse is proved from symmetry of the matrix). Element re-ordering in getInterdiffusivity/getTracerDiffusivity is proved in C11 (Model/Permute.lean, wrapMat_equivariant / wrapVecRef_equivariant); here it is only exercised by a paired evaluation. Exact-field theorems vs IEEE doubles. The statement of C10 is dominated by the monitored clauses: what is PROVED is the algebraic half (tracer = RTM, Darken, volume-fixed frame, symmetry), what decides the first sentence of the property on the databases is the oracle. Known finding (known_findings.txt, key darken-public-diffusivity-only-database): on the diffusivity-only Al-Zr databases the PUBLIC getInterdiffusivity/getTracerDiffusivity pair does not satisfy Darken (solvent tracer reported as exp(0) = 1).',
     'technique': 'Lean 4 proof over fields (Finset sums, Mathlib Matrix for the inverse) + py2lean trace of tracer_diffusivity + model/implementation differential correspondence on captured inverse Hessians + monitored oracle (finite differences, eigenvalues) on the shipped databases',
     'design_ref': 'DESIGN.md section 6, C10',
